@@ -9,7 +9,11 @@
 
   What is proved: a frame from `t`, in any well-formed state, leaves `view t` unchanged, sends
   only to `t`, invokes handlers only with a session id of `t`, fires only callbacks registered
-  for a session of `t` (`step_confined`; sequences: `hostile_run_confined`); an undecodable frame
+  for a session of `t` (`step_confined`; sequences: `hostile_run_confined`); for a session on
+  another transport every public query — rooms, transport, outstanding callbacks, ack counter —
+  and every stored user session of another transport is unchanged (`bystander_unchanged`), and
+  the state stays well formed, so every theorem of C04–C06, C11, C16 keeps applying to the others
+  afterwards (`still_serving`); an undecodable frame
   changes nothing and reaches no handler (`undecodable_inert`); what a frame makes the server
   store is bounded by item counts that do not depend on any declared number (`bounded_reserve`).
 
@@ -105,6 +109,33 @@ theorem hostile_run_confined {s : Srv} (h : Server.WF s) (t : Eio) (vs : List J)
     rcases List.mem_append.mp ho with ho | ho
     · subst heq; exact h1.2 _ ho
     · exact h2.2 o ho t' p heq
+
+/-- What that means for a bystander: for a session that lives on another transport `t'`, after
+    any number of frames from `t` — whatever they decode to — its rooms, its transport, its
+    outstanding callbacks, its ack counter, and the stored user sessions of every transport other
+    than `t` are exactly what they were. -/
+theorem bystander_unchanged {s : Srv} (h : Server.WF s) {t t' : Eio} (hne : t' ≠ t) {ns' : Ns}
+    {sid' : Sid} (he : eioOf s.rooms ns' sid' = some t') (vs : List J) :
+    let s' := (run dec cfg s (vs.map (fun v => Input.frame t v))).1
+    (∀ ns, getRooms s'.rooms ns sid' = getRooms s.rooms ns sid') ∧
+    (∀ ns, eioOf s'.rooms ns sid' = eioOf s.rooms ns sid') ∧
+    s'.cbs.filter (fun x => x.1 == sid') = s.cbs.filter (fun x => x.1 == sid') ∧
+    ctrOf s'.ctr sid' = ctrOf s.ctr sid' ∧
+    (∀ t'' ns, t'' ≠ t → sessGet s' t'' ns = sessGet s t'' ns) := by
+  intro s'
+  obtain ⟨k, rfl, hb⟩ := boundTo_of_eioOf h he
+  have hb' : BoundTo k t' s' :=
+    (Reach.run h dec cfg _).preserve (fun _ _ hw p hq => BoundTo.prim hw p hq) hb
+  exact bystander_of_view (hostile_run_confined (dec := dec) (cfg := cfg) h t vs).1
+    (not_onT_of_boundTo hb hne) (not_onT_of_boundTo hb' hne)
+
+example : eioOf demo0.rooms nsRoot (sidName 1) = some tB := by decide
+
+/-- The server keeps serving: after any history whatsoever — hostile frames included — the state
+    satisfies the invariant from which all theorems about connects, events, acknowledgements,
+    disconnects and sessions of the other clients are proved. -/
+theorem still_serving {s : Srv} (h : Server.WF s) (is : List Input) :
+    Server.WF (run dec cfg s is).1 := h.run dec cfg is
 
 /-! ### `undecodable_inert` -/
 
